@@ -482,7 +482,8 @@ func tamper(c *Ctx, m *protocol.Message, sc *script, selfHex string) (*protocol.
 	var cur sContent
 	_ = cbor.Unmarshal(m.Data, &cur)
 	kinds := []string{"flag-verify", "flag-store", "flag-storeB", "flag-accuse", "value", "garbage", "empty-data", "nil-data",
-		"ssid", "proto", "from-unknown", "from-self", "to-other", "round+", "round-", "round-huge", "bv", "bv-nil", "flip-bcast", "notice"}
+		"ssid", "proto", "from-unknown", "from-self", "to-other", "round+", "round-", "round-huge", "bv", "bv-nil", "flip-bcast", "notice",
+		"foreign-notice-ssid", "foreign-notice-proto", "foreign-notice-sender", "notice-nil-data"}
 	k := kinds[c.Intn(len(kinds))]
 	switch k {
 	case "flag-verify":
@@ -537,6 +538,25 @@ func tamper(c *Ctx, m *protocol.Message, sc *script, selfHex string) (*protocol.
 		t.Data = []byte("peer error")
 		t.To = ""
 		t.Broadcast = false
+	case "foreign-notice-ssid", "foreign-notice-proto", "foreign-notice-sender", "notice-nil-data":
+		// an abort notice that does not belong to this session (another tag / protocol / an unknown sender)
+		t.RoundNumber = 0
+		t.Data = []byte("peer error")
+		t.To = ""
+		t.Broadcast = false
+		switch k {
+		case "foreign-notice-ssid":
+			t.SSID = append([]byte{}, t.SSID...)
+			if len(t.SSID) > 0 {
+				t.SSID[0] ^= 0x80
+			}
+		case "foreign-notice-proto":
+			t.Protocol = "another/protocol"
+		case "foreign-notice-sender":
+			t.From = "stranger"
+		case "notice-nil-data":
+			t.Data = nil
+		}
 	}
 	return t, k
 }
